@@ -14,6 +14,9 @@ import random
 
 REPO = os.environ.get("HSIM_REPO", "/repo")
 VERIF = os.path.dirname(os.path.dirname(os.path.abspath(__file__)))
+# whole-grid runs on procsim give every simulated process its own copy of hypnotoad's
+# class-level / module-level state (procsim.StateIsolation); HSIM_ISOLATE=0 turns it off
+ISOLATE = os.environ.get("HSIM_ISOLATE", "1") != "0"
 
 
 def h64(text):
